@@ -71,7 +71,8 @@ add('UINT', parser.UINT(context='m', limit=L, terminal=True), [1, 2, 3])
 add('UDINT', parser.UDINT(context='m', limit=L, terminal=True), [1, 2, 3, 4, 5])
 add('SSTRING', parser.SSTRING(context='m', limit=L, terminal=True), [3, 65, 66, 67, 68])
 add('STRING', parser.STRING(context='m', limit=L, terminal=True), [3, 0, 65, 66, 67, 0, 9])
-add('EPATH', parser.EPATH(context='m', limit=L, terminal=True), [2, 0x20, 6, 0x24, 1, 0x30], nsym=2)
+add('EPATH', parser.EPATH(context='m', limit=L, terminal=True), [2, 0x20, 6, 0x24, 1, 0x30], nsym=1)
+add('EPATH_2sym', parser.EPATH(context='m', limit=L, terminal=True), [2, 0x20, 6, 0x24, 1, 0x30], nsym=2, tier='thorough')
 add('EPATH_padded', parser.EPATH_padded(context='m', limit=L, terminal=True), [1, 0, 0x01, 0x05, 0x99], nsym=2)
 add('EPATH_single', parser.EPATH_single(context='m', limit=L, terminal=True), [0x91, 3, 65, 66, 67, 0, 0x20], nsym=2, tier='thorough')
 add('status', parser.status(context='m', limit=L, terminal=True), [0xff, 1, 5, 0x21, 0x77])
@@ -81,7 +82,7 @@ add('typed_data_UDINT', parser.typed_data(context='m', tag_type=parser.UDINT.tag
 add('CPF', parser.CPF(context='m', limit=L, terminal=True), [2, 0, 0, 0, 0, 0, 0xb2, 0, 2, 0, 0x0e, 0x00, 0x77])
 add('CPF_unrecognized', parser.CPF(context='m', limit=L, terminal=True), [1, 0, 0x34, 0x12, 3, 0, 1, 2, 3, 0x77], tier='thorough')
 add('unconnected_send', parser.unconnected_send(context='m', limit=L, terminal=True),
-    ref.unconnected_send([0x4c, 2, 0x91, 1, 65, 0, 1, 0], [{'port': 1, 'link': 0}]) + [0x77], nsym=1)
+    ref.unconnected_send([0x4c, 2, 0x20, 2], [{'port': 1, 'link': 0}]) + [0x77], nsym=1)
 add('communications_service', parser.communications_service(context='m', limit=L, terminal=True), [1, 0, 0x20, 0, 65, 66, 0, 0x77], tier='thorough')
 add('connection_ID', parser.connection_ID(context='m', limit=L, terminal=True), [1, 2, 3, 4, 5])
 add('connection_data', parser.connection_data(context='m', limit=L, terminal=True), [1, 0, 0x4c, 2, 0x20], tier='thorough')
@@ -101,7 +102,8 @@ def service_machine(cls):
 
 
 add('Logix_read_frag_request', service_machine(logix.Logix), ref.read_frag([{'symbolic': 'A'}], 1, 0) + [0x77], nsym=1, tier='thorough')
-add('Logix_read_tag_reply', service_machine(logix.Logix), [0xcc, 0, 0, 0, 0xc3, 0, 5, 0, 6, 0, 0x77], nsym=1)
+add('Logix_read_tag_reply', service_machine(logix.Logix), [0xcc, 0, 0, 0, 0xc3, 0, 5, 0, 6, 0, 0x77], nsym=1, tier='thorough')
+add('Logix_write_reply', service_machine(logix.Logix), [0xcd, 0, 0, 0, 0x77], nsym=1)
 add('Logix_write_tag_request', service_machine(logix.Logix), ref.write_tag([{'symbolic': 'A'}], 0xc3, [5, 6]) + [0x77], nsym=1, tier='thorough')
 
 
